@@ -21,7 +21,7 @@ func init() {
 			"float constants compared with int columns are integral; ordering comparisons only on declared enums; like/ilike patterns here are ASCII and metacharacter free (C18 covers the matcher)",
 			"any_bits means x&c != 0, all_bits means x&c == c",
 		},
-		Stages:   stages(20000, 600000, 1500, 0),
+		Stages:   stages(20000, 1800000, 1500, 0),
 		RunCase:  runC02,
 		Conclude: shapeConclude(40),
 	})
